@@ -276,7 +276,7 @@ func suiteDiscover(args []string) {
 	fs.Parse(args)
 	cw := newCaseWriter(*dir)
 	rep := &Report{Suite: "discover", Seed: *seed, Distribution: map[string]int{}}
-	rep.Rule = "every (supported list, offer) over a 4-version universe up to the length bounds (duplicates and unknown versions included); all distinct; non-trivial = offer and supported list both non-empty"
+	rep.Rule = "every (supported list, offer) over a 4-version universe up to the length bounds (duplicates and unknown versions included), plus every pair of lists of length <= 2 (one side <= 1 in quick) over a 16-version WIDE universe of int32 extremes and numbers that collide under common packings/keys; all distinct; non-trivial = offer and supported list both non-empty"
 	universe := []kmip.ProtocolVersion{{Major: 1, Minor: 0}, {Major: 1, Minor: 2}, {Major: 1, Minor: 4}, {Major: 2, Minor: 0}}
 	var lists func(n int) [][]kmip.ProtocolVersion
 	lists = func(n int) [][]kmip.ProtocolVersion {
@@ -343,6 +343,57 @@ func suiteDiscover(args []string) {
 			}
 			rep.Distribution[fmt.Sprintf("sup=%d,offer=%d", len(sup), len(offer))]++
 		}
+	}
+	// the same over a WIDE universe: versions are two int32s, and any packing, hashing or textual
+	// key that identifies two distinct versions shows here (x<<16|y, x<<8|y, 10x+y, "xy", abs, int16 ...)
+	wide := []kmip.ProtocolVersion{{Major: 1, Minor: 4}, {Major: 1, Minor: 65540}, {Major: 65537, Minor: 4}, {Major: 0, Minor: 65540},
+		{Major: -65535, Minor: 4}, {Major: 1, Minor: 14}, {Major: 11, Minor: 4}, {Major: 2, Minor: 4}, {Major: 1, Minor: 260},
+		{Major: 0, Minor: 14}, {Major: 1, Minor: -4}, {Major: -1, Minor: 4}, {Major: 2147483647, Minor: 0}, {Major: -2147483648, Minor: 0},
+		{Major: 4, Minor: 1}, {Major: 257, Minor: 4}}
+	var wl1, wl2 [][]kmip.ProtocolVersion
+	for _, a := range wide {
+		wl1 = append(wl1, []kmip.ProtocolVersion{a})
+		for _, b := range wide {
+			wl2 = append(wl2, []kmip.ProtocolVersion{a, b})
+		}
+	}
+	type pair struct{ sup, offer []kmip.ProtocolVersion }
+	var widePairs []pair
+	for _, sup := range wl1 {
+		for _, offer := range append(append([][]kmip.ProtocolVersion{nil}, wl1...), wl2...) {
+			widePairs = append(widePairs, pair{sup, offer})
+		}
+	}
+	for _, sup := range wl2 {
+		for _, offer := range wl1 {
+			widePairs = append(widePairs, pair{sup, offer})
+		}
+	}
+	if *maxSup >= 3 { // thorough: two supported x two offered
+		for _, sup := range wl2 {
+			for _, offer := range wl2 {
+				widePairs = append(widePairs, pair{sup, offer})
+			}
+		}
+	}
+	for _, pr := range widePairs {
+		cfgCopy := append([]kmip.ProtocolVersion(nil), pr.sup...)
+		s := &kmip.Server{SupportedVersions: cfgCopy}
+		item := &kmip.RequestBatchItem{Operation: kmip.OPERATION_DISCOVER_VERSIONS, RequestPayload: kmip.DiscoverVersionsRequest{ProtocolVersions: append([]kmip.ProtocolVersion(nil), pr.offer...)}}
+		resp, err := s.VerifDiscoverVersions(&kmip.RequestContext{}, item)
+		obs := "error"
+		if err == nil {
+			if r, ok := resp.(kmip.DiscoverVersionsResponse); ok {
+				alias := "fresh"
+				if pvText(s.SupportedVersions) != pvText(pr.sup) {
+					alias = "aliased"
+				}
+				obs = pvText(r.ProtocolVersions) + "|" + alias
+			}
+		}
+		cw.add("discover", "discover "+pvText(pr.sup)+" | "+pvText(pr.offer), obs)
+		rep.Nontrivial++
+		rep.Distribution[fmt.Sprintf("wide:sup=%d,offer=%d", len(pr.sup), len(pr.offer))]++
 	}
 	// defaulting: an empty configuration becomes a fresh copy of 1.4, 1.3, 1.2, 1.1
 	func() {
